@@ -14,6 +14,7 @@ import PoetryVerif.Proofs.MarkerAlgSoundOps
 import PoetryVerif.Proofs.MarkerAlgSoundStr
 import PoetryVerif.Proofs.MarkerAlgSoundExtra
 import PoetryVerif.Proofs.MarkerAlgSoundComb
+import PoetryVerif.Proofs.MarkerAlgSoundInvert
 import PoetryVerif.Proofs.MarkerPrint
 
 set_option linter.unusedSimpArgs false
@@ -249,6 +250,39 @@ example : PlainLeaf Ex.envAB (.single Ex.sNA) ∧
     Or.inr ⟨⟨rfl, rfl, ⟨"a", .eq, true⟩, rfl, rfl, rfl, rfl, rfl⟩, ?_⟩⟩
   · intro x hx; simp [leafAtoms, Leaf.c, Ex.sNA, Ex.cNA, Generic.GC.atoms, Generic.GS.atoms] at hx; subst hx; exact hv
   · intro x hx; simp [leafAtoms, Leaf.c, Generic.GC.atoms, Generic.GS.atoms] at hx; subst hx; exact hv
+
+/-- **Inversion preserves truth on the string/`extra` fragment, no hypothesis** — for every marker over
+`==`/`!=` leaves on the canonical string variables and `extra` (values plain and quotable), atomic multi markers
+with at least one member, and atomic unions over `==` atoms (resp. pairwise different extras), in every
+environment defining the extras: `invert()` returns a marker of the fragment that is true exactly where the
+operand is false.  A `SingleMarker` is inverted by re-parsing `name <flipped op> "value"`, which the
+character-level theorem (C13 `print_parse_chars`) reads back exactly; atomic leaves invert through C16's
+`g_invert_exact`/`x_invert_exact`. -/
+theorem invert_sound_plain {ex : List String} (hE : E.extras = some ex) {a r : M}
+    (ha : M.Good (InvReady E) a) (h : a.invert = .ok r) :
+    M.Good (InvLeaf E) r ∧ M.validate E r = .ok (!holds E a) := by
+  have := M.invert_sound_inv hE ha h
+  refine ⟨this.1, ?_⟩
+  rw [holds_is_validate E r (M.good_mono (fun l hl => invLeaf_evaluable hE hl) r this.1)]
+  exact congrArg _ this.2
+
+/-- …and intersection/union on the same (quotable) fragment, so that the three operations compose there. -/
+theorem intersect_union_sound_quotable {ex : List String} (hE : E.extras = some ex) {a b r : M}
+    (ha : M.Good (InvLeaf E) a) (hb : M.Good (InvLeaf E) b) :
+    (mIntersect fuel stk a b = .ok r →
+      M.Good (InvLeaf E) r ∧ M.validate E r = .ok (holds E a && holds E b)) ∧
+    (mUnion fuel stk a b = .ok r →
+      M.Good (InvLeaf E) r ∧ M.validate E r = .ok (holds E a || holds E b)) :=
+  ⟨fun h => by
+      have := intersect_sound_partial (leafSpec_inv hE) (fun l hl => invLeaf_evaluable hE hl) ha hb h
+      exact ⟨this.1, this.2.2⟩,
+   fun h => by
+      have := union_sound_partial (leafSpec_inv hE) (fun l hl => invLeaf_evaluable hE hl) ha hb h
+      exact ⟨this.1, this.2.2⟩⟩
+
+/-- `sys_platform == "a"` inverts to `sys_platform != "a"` (through the grammar, character by character) -/
+example : (Leaf.invert (.single Ex.sA)).toOption.map M.dump = some (M.leaf (.single Ex.sNA)).dump := by
+  decide +kernel
 
 /-- the leaf facts that remain hypotheses outside the string fragment, as one visible statement:
 version-like variables (through C05's exactness on regular probes), the
